@@ -54,6 +54,11 @@ def run(ctx):
                         rb = cfg.reach_strict(fn, b, removed_blocks=[b2])
                         if not any(h in rb for h in heads) and sd_bb not in rb:
                             paired = True
+                        # or the other order (a helper records the disclosure and hands back its digest): within the iteration the
+                        # digest push is reachable only through the recording
+                        for lp in next_loops(fn):
+                            if b in loop_body(fn, lp) and all(b not in cfg.reachable(fn, [d], removed_blocks=[b2, lp.bb]) for d in lp.body_entries):
+                                paired = True
             if paired:
                 ctx.ok("C12.D2", fn, "real-digest", "pushed digest is the hash of a disclosure that is pushed to all_disclosures in the same iteration", line=line)
             else:
